@@ -50,6 +50,8 @@ func init() {
 			ruleHintCallers(c, "C07.HINT.CALLERS")
 			ruleArith(c, "C07.") // the hinted index converts back to the hinted block only if AddPrefixes neither wraps nor reports a spurious overflow
 			ruleGeomAlias(c, "C07.")
+			c.R.Floor("C07.CONV-PAIR", 3)
+			c.R.Floor("C07.FULL-IFF-FAIL", 4)
 			c.R.Floor("C07.ALLOC.GEOM-ALIAS", 3)
 			c.R.Floor("C07.HINT.FIRST", 4)
 			c.R.Floor("C07.HINT.CALLERS", 2)
@@ -146,6 +148,7 @@ func init() {
 			ruleDBLoad(c, "C03.")
 			ruleRangeRestart(c, "C03.RANGE.RESTART")                             // "none lost": every loaded binding is kept and re-marked, or start-up aborts
 			ruleAlloc(c, "C03.", map[string]bool{"TESTSET": true, "FULL": true}) // an address handed out twice puts one ip in two rows: such a database is refused at restart
+			c.R.Floor("C03.RANGE.LEASETIME", 1)
 			c.R.Floor("C03.DB.SAVE-SYNC", 1)
 			c.R.Floor("C03.ALLOC.TESTSET", 3)
 			c.R.Floor("C03.FULL-IFF-FAIL", 4)
@@ -174,6 +177,9 @@ func init() {
 			ruleGeomAlias(c, "C08.") // what a client was told it holds stays what is recorded: no answer shares storage with a later one
 			ruleConvPair(c, "C08.")  // disjoint blocks: index and prefix conversions are the library's inverse pair
 			for _, r := range []string{"PD.PROVENANCE", "PD.OWN-KEY", "PD.ONE-PER-IAPD", "PD.NOPREFIX", "PD.LIFETIME", "PD.FRESH", "PD.LOCK"} {
+				c.R.Floor("C08.PD.OWN-KEY", 2)
+				c.R.Floor("C08.PD.POOL-ALIGNED", 2)
+				c.R.Floor("C08.PD.PROVENANCE", 2)
 				c.R.Floor("C08.PD.POOL-ALIGNED", 1)
 				c.R.Floor("C08.CONV-PAIR", 3)
 				c.R.Floor("C08.ALLOC.GEOM-ALIAS", 3)
@@ -197,6 +203,8 @@ func init() {
 			}
 			ruleSamePrefix(c, "C09.KEEP.EXACT", sp)
 			for _, r := range []string{"KEEP.RECORD-ALL", "KEEP.REUSE-FIRST", "KEEP.MARK", "KEEP.EXACT"} {
+				c.R.Floor("C09.PD.OWN-KEY", 2)
+				c.R.Floor("C09.PD.PROVENANCE", 1)
 				c.R.Floor("C09.KEEP.WRITERS", 1)
 				c.R.Floor("C09.PD.OWN-KEY", 1)
 				c.R.Floor("C09."+r, 1)
